@@ -198,6 +198,25 @@ impl ChainSt {
                 return Err((self.k("host-header"), format!("hop {}: Host header {:?}, expected {:?}", self.hop, hosts.iter().map(|x| show(x)).collect::<Vec<_>>(), comps.host)));
             }
             let _ = m; // the method table is C15's
+            // the target must also survive the Prepare-state calls a caller may make on the new flow
+            if self.hop > 0 {
+                let mut g = f.clone();
+                g.send_body_despite_method();
+                let _ = g.header("x-b", "1");
+                if g.uri().to_string() != f.uri().to_string() {
+                    return Err((self.k("target-lost-in-prepare"), format!("hop {}: uri() changed from {} to {} after send_body_despite_method()/header() on the redirected flow", self.hop, f.uri(), g.uri())));
+                }
+                let w = write_head(&g, false);
+                if w.err.is_none() {
+                    if let Ok(h2) = head::parse(&w.bytes) {
+                        let (_, t2, _) = h2.request_line().map_err(|e| (format!("out-of-scope:{}:head-malformed", self.cfg.prop), e))?;
+                        let hosts2 = h2.get_all("host");
+                        if t2 != want_target || hosts2.len() != 1 || !hosts2[0].eq_ignore_ascii_case(comps.host.as_bytes()) {
+                            return Err((self.k("target-lost-in-prepare"), format!("hop {}: after send_body_despite_method() on the redirected flow the head targets {:?} host {:?}, expected {:?} host {:?}", self.hop, t2, hosts2.iter().map(|x| show(x)).collect::<Vec<_>>(), want_target, comps.host)));
+                        }
+                    }
+                }
+            }
         }
         if self.cfg.check_credentials && self.hop > 0 {
             // "never present" must also hold when the caller attaches its own cookie / credentials for the
@@ -219,6 +238,26 @@ impl ChainSt {
                         }
                         if name == "authorization" && v.contains("S3CRET") && !self.auth_may {
                             return Err((self.k("authorization-leaked"), format!("hop {}: after the caller added its own authorization to the redirected flow, the original Authorization is sent to {} as well", self.hop, uri3986::to_string(&self.cur))));
+                        }
+                    }
+                }
+            }
+            // ... and when the caller converts the redirected flow with send_body_despite_method()
+            let mut g2 = f.clone();
+            g2.send_body_despite_method();
+            let w2 = write_head(&g2, false);
+            if w2.err.is_none() {
+                if let Ok(h3) = head::parse(&w2.bytes) {
+                    for (name, val) in &h3.fields {
+                        let v = String::from_utf8_lossy(val);
+                        if name == "cookie" && v.contains("ORIG") {
+                            return Err((self.k("cookie-leaked"), format!("hop {}: after send_body_despite_method() on the redirected flow the previous request's Cookie is sent: {}", self.hop, v)));
+                        }
+                        if name == "content-length" && self.cfg.req.orig.iter().any(|(k, ov)| k == "content-length" && ov == val) {
+                            return Err((self.k("content-length-leaked"), format!("hop {}: after send_body_despite_method() on the redirected flow the previous request's Content-Length ({}) is announced", self.hop, v)));
+                        }
+                        if name == "authorization" && v.contains("S3CRET") && !self.auth_may {
+                            return Err((self.k("authorization-leaked"), format!("hop {}: after send_body_despite_method() the original Authorization is sent to {}", self.hop, uri3986::to_string(&self.cur))));
                         }
                     }
                 }
